@@ -103,4 +103,7 @@ def init_stub_base(target: IH5Record, src_ub: IH5UserBlock, src_skel: IH5Skeleto
     """
     init_stub_skeleton(target, src_skel)
     # mark as base container
-    target._set_ublock(-1, src_ub.copy(update={"prev_patch": None}))
+    # (the payload hashsum belongs to the real container, the stub is not committed yet)
+    target._set_ublock(
+        -1, src_ub.copy(update={"prev_patch": None, "hdf5_hashsum": None})
+    )
